@@ -69,6 +69,12 @@ reg("C16",
     "Positions are judged against the newline-normalised input. Three defects found by this check were repaired in /repo (fix: commits).",
     "DESIGN.md §3 C16")
 
+reg("C05",
+    "metamorphic property-based testing: identical characters delivered through 6 source kinds x generated read-size schedules x internal chunk sizes x 15 encodings must reproduce the tree and (code, line, col) error list of the one-shot str parse",
+    "Exploration: generated CR/LF/surrogate/multibyte-rich markup under read schedules (file-like objects returning 1..9 characters or bytes per read), _defaultChunkSize 1..10240, and byte sources in 12 argument-declared encodings + 3 BOM kinds; evidence reports how many boundaries fell inside CRLF pairs, at surrogates, inside multi-byte sequences, tags and character references. Held on everything explored.",
+    "Reference = parse of the same text as one str at the default chunk size. Known findings: chunk-dependent position/order of stream-level invalid-codepoint errors; BOM sniffing trusts read(4). Five input-stream defects found here were repaired in /repo.",
+    "DESIGN.md §3 C05")
+
 NOT_APPLICABLE = {}
 
 
